@@ -59,19 +59,25 @@ def e1_plan(tier):
                 plan.append((spec_of(k, r, v, shape), depth, ext))
 
     all_shapes = lambda d: list(itertools.product((1, 2, 3), repeat=d))
-    deep = 3 if thorough else 2
-    add(all_shapes(1), deep)
-    add(all_shapes(2), deep)
     if thorough:
+        # depth 3: every order-1 seed; order 2: every shape for ten format/rank variants (the other four
+        # variants only differ in rank 1 vs 2 / number of terms and are explored to depth 2)
+        deep2 = [("C", 0, 0), ("C", 2, 0), ("T", 0, 0), ("T", 2, 0), ("T", 2, 1), ("A", 1, 0), ("S", 1, 0),
+                 ("S", 1, 1), ("P", 1, 0), ("P", 1, 2)]
+        add(all_shapes(1), 3)
+        add(all_shapes(2), 3, kinds=deep2)
+        add(all_shapes(2), 2, kinds=[k for k in kinds_for(2) if k not in deep2])
         add(all_shapes(3), 2)
         add([(2, 1, 2)], 3, kinds=[("C", 2, 0), ("T", 2, 0)])
-        add([(2, 1, 3, 2)], 2, kinds=[("C", 2, 0), ("T", 2, 1), ("S", 1, 0), ("P", 1, 2)])
+        add([(2, 1, 3, 2)], 2, kinds=[("C", 2, 0), ("T", 2, 1)])
     else:
+        add(all_shapes(1), 2)
+        add(all_shapes(2), 2)
         add([(2, 3, 1), (1, 2, 2), (2, 1, 2)], 2)
     # every shape with the extended index alphabet, one event
     for d in (1, 2, 3):
         add(all_shapes(d), 1, ext=True)
-    o4 = all_shapes(4) if thorough else [(2, 1, 3, 2), (1, 1, 2, 1), (3, 2, 1, 1)]
+    o4 = [s4 for s4 in all_shapes(4) if sum(s4) <= 7] if thorough else [(2, 1, 3, 2), (1, 1, 2, 1), (3, 2, 1, 1)]
     add(o4, 1, ext=True, kinds=[("C", 2, 0), ("C", 0, 0), ("T", 2, 0), ("T", 2, 1), ("A", 1, 0), ("S", 1, 0), ("P", 1, 0), ("P", 1, 2)])
     return plan
 
@@ -242,11 +248,11 @@ def run(ctx):
     cres = par.pmap(_approx_worker, cases, chunk=8)
     for case, probs, info in cres:
         out.evaluations += 1
-        out.transitions += (info if case["what"] == "tgen" and isinstance(info, int) else 1)
+        out.transitions += (info if case["what"] in ("tgen", "dense") and isinstance(info, int) else 1)
         out.states += 1
         out.traces += 1
         out.part("C:" + case["what"], cases=1)
-        if info is not None and case["what"] != "tgen":
+        if info is not None and case["what"] not in ("tgen", "dense"):
             out.outcomes.add(("C",) + tuple(info))
         if case["what"] in ("aca2d", "aca3d", "greedy", "als") and case.get("r", 0) >= 1:
             out.nontrivial_extra += 1
